@@ -94,11 +94,38 @@ Example C02_example :
   run (EBin Pow (EBin Pow (EConst (VInt 2)) (EConst (VInt 3))) (EConst (VInt 2))) = Ok (VInt 64).
 Proof. vm_compute. repeat split; reflexivity. Qed.
 
-(* The parser model (Model/ExprParser.v, tied to parser.py by K-parse on every run).  The
-   round-trip theorem parse_unparse of DESIGN §6 is NOT proved in this round; what follows are
-   computed instances only (left-to-right **, unary minus binding tighter than ** and than a
-   filter, `not` below comparisons, chained comparison, ~ flattening), not the theorem. *)
-From JV Require Import Model.ExprParser.
+(* parse_unparse — the precedence / associativity table as a theorem.  [unparse] prints an
+   expression with parentheses only where a child's level is lower than its position requires
+   (Model/ExprUnparse.v: 13 levels from the conditional expression down to primaries; left
+   operands of or / and / + - / * / // % / ** , filter and postfix chains are printed at the
+   same level, i.e. the chains are left-associative, including the left-to-right **; unary
+   minus binds tighter than ** and looser than postfix; a filter binds looser than unary minus;
+   comparison chains and ~ are flat; the else branch nests to the right).  For every
+   expression of the AST in printable normal form ([wf]: non-negative int / str / bool / none
+   constants, non-reserved names, >= 2 operands for ~, >= 1 for a comparison chain, test name
+   other than `not`), the parser run on the printed tokens returns exactly that expression and
+   consumes all tokens, for every sufficiently large fuel. *)
+From JV Require Import Model.ExprParser Model.ExprUnparse Proofs.ExprParseMain.
+Theorem C02_parse_unparse : forall (e : expr), wf e = true ->
+  exists m0, forall m, m0 <= m -> p_cond (kit_of m) (unparse e) = ROk e [].
+Proof. exact parse_unparse_enough_fuel. Qed.
+Print Assumptions C02_parse_unparse.
+
+(* the same for parse_expr (Parser.parse_expression + end-of-stream check) at a given fuel *)
+Definition parse_expr_at (m : nat) (ts : list tok) : pres expr :=
+  match p_cond (kit_of m) ts with ROk e [] => ROk e [] | ROk _ _ => RErr | x => x end.
+Theorem C02_parse_expr_default_fuel : forall ts, parse_expr ts = parse_expr_at (40 * (length ts + 2)) ts.
+Proof. reflexivity. Qed.
+Theorem C02_parse_unparse_expr : forall (e : expr), wf e = true ->
+  exists m0, forall m, m0 <= m -> parse_expr_at m (unparse e) = ROk e [].
+Proof.
+  intros e Hw. destruct (parse_unparse_enough_fuel e Hw) as [m0 H]. exists m0. intros m Hm.
+  unfold parse_expr_at. rewrite (H m Hm). reflexivity.
+Qed.
+Print Assumptions C02_parse_unparse_expr.
+
+(* computed instances (default fuel of parse_expr): left-to-right **, unary minus, filter,
+   not / in, chained comparison, ~ flattening *)
 Example C02_parse_examples :
   let n := fun z => KInt z in let v := fun c => KName [c] in
   let a := EName [97%N] in let b := EName [98%N] in let c := EName [99%N] in
@@ -109,5 +136,8 @@ Example C02_parse_examples :
   parse_expr [v 97%N; KOp OLt; v 98%N; KOp OLe; v 99%N] = ROk (ECompare a [(CLt, b); (CLe, c)]) [] /\
   parse_expr [v 97%N; KOp OAdd; v 98%N; KOp OTilde; v 99%N; KOp OMul; v 97%N]
     = ROk (EBin Add a (EConcat [b; EBin Mul c a])) [] /\
-  parse_expr [v 97%N; KOp OAdd] = RErr.
+  parse_expr [v 97%N; KOp OAdd] = RErr /\
+  unparse (EBin Pow (EBin Pow a b) (EUn Neg c)) = [v 97%N; KOp OPow; v 98%N; KOp OPow; KOp OSub; v 99%N] /\
+  unparse (EBin Pow a (EBin Pow b c)) = [v 97%N; KOp OPow; KOp OLParen; v 98%N; KOp OPow; v 99%N; KOp ORParen] /\
+  unparse (EBin Mul (EBin Add a b) c) = [KOp OLParen; v 97%N; KOp OAdd; v 98%N; KOp ORParen; KOp OMul; v 99%N].
 Proof. vm_compute. repeat split; reflexivity. Qed.
